@@ -38,6 +38,7 @@ SCHEMA = {
         "_main_peak_frq": "arr", "_main_peak_amp": "arr", "n_curves": "int", "amplitude": "arr2", "frequency": "arr",
         "meta": ("derived", lambda ex, st, o: _opaque_meta(o)),
     },
+    "HvsrCurve": {"frequency": "arr", "amplitude": "arr", "meta": ("derived", lambda ex, st, o: _opaque_meta(o))},
     "SeismicRecording3C": {
         "ns": ("obj", "TimeSeries"), "ew": ("obj", "TimeSeries"), "vt": ("obj", "TimeSeries"),
         "degrees_from_north": "real",
